@@ -1,7 +1,7 @@
 """C05 — serialization emits well-formed JSON denoting the value: structural clauses."""
 import collections
 from ..facts import callee_is, op_local, op_place, op_int, op_bytes, norm_path, FactError
-from ..analysis import (backward_slice, forward_derived, result_edges, bool_switch_edges, discr_switches_on,
+from ..analysis import (reachable_cp, backward_slice, forward_derived, result_edges, bool_switch_edges, discr_switches_on,
                         switch_edges, result_fate, affine_of, control_deps, return_kinds)
 from .c01 import short
 
@@ -770,7 +770,8 @@ def r05_10(ctx):
             g = False
             for sb, st in state_sw:
                 tg = [x for v, x in st["targets"]] + [st["otherwise"]]
-                can = [x for x in tg if x == cb or cb in f.reachable_from(x)]
+                # (`matches!(state, State::Empty)` materialises the test as a bool: followed by constant propagation)
+                can = [x for x in tg if x == cb or cb in reachable_cp(f, x)]
                 if f.dominates(sb, cb) and 0 < len(set(can)) < len(set(tg)):
                     g = True
             (guarded if g else uncond).append(ct["callee"].rsplit("::", 1)[-1])
